@@ -6,6 +6,7 @@ for p in $(python3 -c "import json; print(' '.join(c['property_id'] for c in jso
   out=$(VERIF_SEED=${VERIF_SEED:-1} ./check $p --tier ${1:-quick} 2>&1 | grep -v "^KNOWN" | tail -2 | tr '\n' ' ')
   echo "$out"
   case "$out" in *VIOLATION*) fail=1;; esac
+  case "$out" in *"obligations "*) ;; *) echo "  (no result line: the check itself failed)"; fail=1;; esac
 done
 python3-vt - <<'PY'
 import json, jsonschema, glob
